@@ -232,3 +232,41 @@ func Harness_C03_observers() {
 		verifAssert(t == s.vals[0], "slice_is_a_copy")
 	}
 }
+
+// C03 cleanup_vs_newconsumer: one cleaner run (custom callback that takes time, deciding like the default
+// cleaner) races the creation of a new consumer. The decision and the eviction are one critical section:
+// a consumer registered meanwhile is never left pointing below the buffer's new offset.
+func Harness_C03_cleanup_vs_newconsumer() {
+	verifDaemon(".NewConsumer$1")
+	s := verifConcreteBuffer()
+	b := s.b
+	b.buffer = []interface{}{vtok(1), vtok(2), vtok(3)}
+	b.offset = 10
+	s.verifAddConsumerAt(12, 0) // has read (and committed) the first two values
+	b.cleaner = &CleanerConfig{Cooldown: DefaultCleanerCooldown, Cleaner: func(size int, offsets []int) int {
+		verifYield() // the callback takes time
+		return DefaultCleaner(size, offsets)
+	}}
+	var c2 Consumer
+	var err error
+	evicted := false
+	go func() {
+		b.mutex.Lock()
+		evicted = b.cleanupLogic()
+		b.mutex.Unlock()
+	}()
+	go func() { c2, err = b.NewConsumer() }()
+	verifFinally(func() {
+		verifAssert(err == nil && c2 != nil, "newconsumer_succeeds")
+		// the consumed prefix goes unless the new consumer (which starts at the buffer's first value) got in first
+		verifAssert((evicted && b.offset == 12 && len(b.buffer) == 1) || (!evicted && b.offset == 10 && len(b.buffer) == 3), "cleaner_evicts_the_consumed_prefix_or_nothing")
+		if evicted {
+			verifReach("evicted")
+		}
+		if cc, ok := c2.(*consumer); ok {
+			off, present := b.consumers[cc]
+			verifAssert(present && off >= b.offset && off <= b.offset+len(b.buffer), "new_consumer_never_points_below_the_buffer_offset")
+		}
+		verifReach("quiescent")
+	})
+}
